@@ -1,6 +1,7 @@
 package symx
 
 import (
+	"go/token"
 	"go/types"
 
 	"golang.org/x/tools/go/ssa"
@@ -25,6 +26,23 @@ func init() {
 	})
 	// schema inference is reflection over key/value types and only fills descriptive metadata
 	reg("github.com/sharedcode/sop.InferSchemaFromTypes", noop)
+	// sort.Slice / SliceStable swap through reflection: stable insertion sort over the slice
+	// with the caller's less function (a symbolic less forks through the usual Decide).
+	sortSlice := func(m *Machine, fr *frame, fn *ssa.Function, args []value) value {
+		it := args[0].(iface)
+		s, _ := it.v.([]value)
+		for i := 1; i < len(s); i++ {
+			for j := i; j > 0; j-- {
+				if !m.truth(m.call(fr, token.NoPos, args[1], []value{j, j - 1})) {
+					break
+				}
+				s[j], s[j-1] = s[j-1], s[j]
+			}
+		}
+		return nil
+	}
+	reg("sort.Slice", sortSlice)
+	reg("sort.SliceStable", sortSlice)
 	// contextName is only used for String()
 	reg("context.contextName", func(m *Machine, fr *frame, fn *ssa.Function, args []value) value { return "ctx" })
 }
